@@ -142,7 +142,7 @@ def case_matrix(rng, tier):
     judge_solve_events(c, 'solve:')
     sc = np.abs(al) * np.abs(x1) + np.abs(be) * np.abs(x2)
     c.judge('solution depends linearly on the loads', float((np.abs(x3 - al * x1 - be * x2) / (sc + 1e-9 * sc.max() + 1e-300)).max()),
-            1e-8 * max(1.0, np.linalg.cond(Ka) * 1e-8))
+            1e-8 * max(1.0, np.linalg.cond(Ka) * 1e-7))
     ev = monitors.drain('static_fn')
     c.hit('static_fn', len(ev))
     c.expect('analysis.static reports load factor 1 and the solution', incs == [1.0] and len(cs) == 1 and np.array_equal(cs[0], x1))
@@ -199,7 +199,7 @@ def case_panel(rng, tier):
     f1 = np.asarray(p.calc_fext(inc=1., size=d['size'], col0=col0, silent=True))
     fc = np.asarray(mk(forces_cte, []).calc_fext(inc=inc, size=d['size'], col0=col0, silent=True))
     sc = np.abs(f0) + np.abs(f1) + 1e-9 * (np.abs(f0) + np.abs(f1)).max() + 1e-300
-    c.judge('fext(inc) = fext(0) + inc*(fext(1)-fext(0))', float((np.abs(fext - (f0 + inc * (f1 - f0))) / sc).max()), 1e-12)
+    c.judge('fext(inc) = fext(0) + inc*(fext(1)-fext(0))', float((np.abs(fext - (f0 + inc * (f1 - f0))) / sc).max()), 1e-11)
     c.expect('fext(0) is the vector of the constant forces alone', np.array_equal(f0, fc))
     # the same object after its definition changed (longer / wider panel, other edge flags, m and n exchanged): the load
     # vector must be the virtual work on the displacements the object reports NOW
